@@ -278,6 +278,19 @@ pub fn run(ctx: &Ctx) {
             check_case(ctx, &long, &cuts)
         });
     });
+    if ctx.tier == vcore::ev::Tier::Thorough {
+        // coverage-guided campaign: bytes -> (frames, cuts), same oracle inside the target
+        let seeds: Vec<Vec<u8>> = vec![vec![0], vec![3, 2, 0x1a, 0x1a, 0x1a, 4, 4, 4, 4, 1, 7], (0..=255u8).collect(), vec![0xff; 64], vec![8; 200]];
+        let c = crate::fuzzrun::Campaign { target: "beast", oracle: "c09", seeds, runs_per_process: 400_000, processes: 16, max_len: 256 };
+        for input in crate::fuzzrun::campaign(ctx, &c) {
+            let (frames, cuts) = crate::fuzzmap::beast_case(&input);
+            let r = check_case(ctx, &frames, &cuts);
+            if r.is_ok() {
+                crate::fuzzrun::unreproducible("beast", &input);
+            }
+            ctx.judge(r);
+        }
+    }
     let f = vec![raw_frame(b'3', &[0x1a, 0x1a, 1, 2, 3, 4, 5, 6, 7, 8, 9, 10, 11, 12, 13, 14, 15, 16, 17, 18, 0x1a]), raw_frame(b'2', &[9; 14])];
     ctx.sample(json!({"frames": f.iter().map(hex::encode).collect::<Vec<_>>(), "escaped_stream": hex::encode(f.iter().flat_map(|x| escape(x)).collect::<Vec<u8>>()), "cuts": [24]}));
     ctx.judge(check_case(ctx, &f, &[24]));
